@@ -201,12 +201,19 @@ def run_case(I: Interp, ps: PathState, case: Case) -> Dict[str, Any]:
     except PyRaise as pr:
         ob("can_apply_to-does-not-raise", False, f"raised {pr.exc.clsname} at {pr.site}")
         return {"obligations": obl, "labels": list(ps.labels)}
-    if not case.expect:
+    if case.expect == "optional":
+        # a form the documentation neither promises nor excludes: the rule may decline; if it accepts, the result
+        # must still have the documented shape
+        if not can:
+            ob("declined-or-documented-shape", True)
+            return {"obligations": obl, "labels": list(ps.labels)}
+    elif not case.expect:
         ob("documented-non-applicability-respected", can is False, "rule reports applicable")
         return {"obligations": obl, "labels": list(ps.labels)}
-    ob("every-instance-is-accepted", can is True, "rule reports not applicable on this instance")
-    if not can:
-        return {"obligations": obl, "labels": list(ps.labels), "rejected": True}
+    else:
+        ob("every-instance-is-accepted", can is True, "rule reports not applicable on this instance")
+        if not can:
+            return {"obligations": obl, "labels": list(ps.labels), "rejected": True}
     try:
         change = I.call_method(rule, "apply_to", [node], {})
     except PyRaise as pr:
@@ -497,6 +504,39 @@ def cases() -> List[Case]:
 
         nm = ("a" if hc1 else "") + "x" + ("^n" if he else "") + " + " + ("b" if hc2 else "") + "x" + ("^n" if he else "")
         out.append(Case(f"distributive_factor_out/{nm}", "distributive_factor_out", build_df, True, shape_df, assume_df))
+    # like terms where only ONE side writes its exponent (x + b x^e, a x^e + x): optional forms
+    for side in ("left", "right"):
+        for hc in (False, True):
+            def build_mixed(B, side=side, hc=hc):
+                plain = ("term", False, False, "x", "n")
+                powered = ("term", hc, True, "x", "n")
+                n = B.node(("+", plain, powered) if side == "left" else ("+", powered, plain), name="node")
+                return n, n
+
+            def shape_mixed(B, node, result, valid):
+                if not is_kind(result, "*"):
+                    return False, f"result {result}"
+                l, r = cur(result, "left"), cur(result, "right")
+                s_, common = (l, r) if is_kind(l, "+") else (r, l)
+                if not is_kind(s_, "+"):
+                    return False, f"no sum factor: {l}, {r}"
+                ct = term_of(common)
+                if ct is None or ct[1] is None:
+                    return False, f"common factor {common} is not a term in x"
+                # every variable node of the result carries an identifier
+                def bad_var(o, depth=0):
+                    if not isinstance(o, Obj) or depth > 6:
+                        return False
+                    if is_kind(o, "VariableExpression") and not (o.lazy or o.mirror is not None) and not isinstance(o.cur.get("identifier"), (IdStr, str)):
+                        return True
+                    return bad_var(cur(o, "left"), depth + 1) or bad_var(cur(o, "right"), depth + 1)
+
+                if bad_var(result):
+                    return False, "a variable node without an identifier"
+                return True, ""
+
+            out.append(Case(f"distributive_factor_out/optional: {'x + ' if side == 'left' else ''}{'b' if hc else ''}x^e{' + x' if side == 'right' else ''}", "distributive_factor_out", build_mixed, "optional", shape_mixed))
+
     def assume_unlike(B, ps):
         ps.assume(B.named[("ident", "x")].ghost["ident"] != B.named[("ident", "y")].ghost["ident"])
         # with whole-number coefficients there is no common numeric factor below 1 to pull out
